@@ -1,10 +1,12 @@
 import GoagModel.Props.C07b
 import GoagModel.Props.C08
+import GoagModel.Props.C18
 /-
   C08 — "every JSON document that is valid for a schema decodes without error into the schema's Go
   type and re-encodes to an equivalent JSON value", through the whole schema tree, for the
-  fragment of schemas made of primitive leaves, arrays and objects with or without
-  additionalProperties (each nullable or not, property names distinct), nested to ANY depth
+  fragment of schemas made of primitive leaves, arrays, objects with or without
+  additionalProperties (each nullable or not, property names distinct) and allOf compositions of
+  objects without additionalProperties (declared names distinct), nested to ANY depth
   ("keeping additional properties where the schema allows them": the members under undeclared names
   come back after the declared ones, each re-encoded by the map's value schema).
 
@@ -22,7 +24,8 @@ import GoagModel.Props.C08
   every depth (`shapeOk`), so a document with a required property missing or a value of the wrong
   structural kind anywhere below a declared property is rejected (which error names which property
   is the object-level statement of `Props/C08.lean`).
-  Outside the fragment (allOf, oneOf, untyped values) this is validated per generated type.
+  Outside the fragment (oneOf, untyped values, allOf members with additionalProperties) this is
+  validated per generated type.
 -/
 namespace Goag.JsonM
 
@@ -34,10 +37,16 @@ def frag : Schema → Bool
   | .arr items _ => frag items
   | .obj fields none _ => fragFields fields && decide ((fields.map (·.1)).Nodup)
   | .obj fields (some a) _ => fragFields fields && decide ((fields.map (·.1)).Nodup) && frag a
+  | .allOf members => fragMembers members && decide ((declaredNames members).Nodup)
   | _ => false
 def fragFields : List (String × Bool × Schema) → Bool
   | [] => true
   | (_, _, s) :: fs => frag s && fragFields fs
+/-- allOf of objects without additionalProperties (by reference or inline) -/
+def fragMembers : List (Bool × Schema) → Bool
+  | [] => true
+  | (_, .obj fields none _) :: ms => fragFields fields && fragMembers ms
+  | _ => false
 end
 
 /-! ### key maps -/
@@ -383,6 +392,150 @@ theorem addl_decode_encode (tbl : LeafDec) (a : Schema)
         subst hd
         simp only [toJAddl, hS j v hc.1 hj, ih xs' hc.2 hr, pruneExtras]
 
+/-! ### allOf: every member decodes from what the members before it left in the key map -/
+
+theorem lookupAssoc_filter_undeclared (fields : List (String × Bool × Schema)) (ms : List (String × J)) (k : String)
+    (h : k ∉ fields.map (·.1)) :
+    lookupAssoc (ms.filter (fun kv => !fields.any (·.1 == kv.1))) k = lookupAssoc ms k := by
+  induction ms with
+  | nil => rfl
+  | cons m rest ih =>
+    obtain ⟨k', j'⟩ := m
+    rw [List.filter_cons]
+    by_cases hkeep : (!fields.any (·.1 == k')) = true
+    · simp only [hkeep, if_true]
+      rw [lookupAssoc_cons, lookupAssoc_cons, ih]
+    · simp only [hkeep, Bool.false_eq_true, if_false]
+      have hin : k' ∈ fields.map (·.1) := by
+        simp only [Bool.not_eq_true', Bool.not_eq_false] at hkeep
+        obtain ⟨f, hf, hfe⟩ := List.any_eq_true.mp hkeep
+        exact List.mem_map.mpr ⟨f, hf, beq_iff_eq.mp hfe⟩
+      have hne : (k' == k) = false := by
+        cases hb : k' == k with
+        | false => rfl
+        | true => exact absurd (beq_iff_eq.mp hb ▸ hin) h
+      rw [lookupAssoc_cons, ih, hne]
+      cases lookupAssoc rest k <;> rfl
+
+theorem pruneFields_filter (tbl : LeafDec) (fs fields : List (String × Bool × Schema)) (ms : List (String × J))
+    (h : ∀ k ∈ fs.map (·.1), k ∉ fields.map (·.1)) :
+    pruneFields tbl fs (ms.filter (fun kv => !fields.any (·.1 == kv.1))) = pruneFields tbl fs ms := by
+  induction fs with
+  | nil => simp [pruneFields]
+  | cons f rest ih =>
+    obtain ⟨fname, req, s⟩ := f
+    simp only [pruneFields]
+    rw [lookupAssoc_filter_undeclared fields ms fname (h fname (by simp)), ih (fun k hk => h k (by simp [hk]))]
+
+theorem pruneMembers_filter (tbl : LeafDec) (members : List (Bool × Schema)) (fields : List (String × Bool × Schema))
+    (ms : List (String × J)) (h : ∀ k ∈ declaredNames members, k ∉ fields.map (·.1)) :
+    pruneMembers tbl members (ms.filter (fun kv => !fields.any (·.1 == kv.1))) = pruneMembers tbl members ms := by
+  induction members with
+  | nil => simp [pruneMembers]
+  | cons m rest ih =>
+    obtain ⟨b, s⟩ := m
+    cases s with
+    | obj fs a nl =>
+      simp only [declaredNames, List.mem_append] at h
+      simp only [pruneMembers]
+      rw [pruneFields_filter tbl fs fields ms (fun k hk => h k (Or.inl hk)), ih (fun k hk => h k (Or.inr hk))]
+    | prim _ _ => simp only [pruneMembers]; exact ih (fun k hk => h k (by simpa [declaredNames] using hk))
+    | any => simp only [pruneMembers]; exact ih (fun k hk => h k (by simpa [declaredNames] using hk))
+    | arr _ _ => simp only [pruneMembers]; exact ih (fun k hk => h k (by simpa [declaredNames] using hk))
+    | allOf _ => simp only [pruneMembers]; exact ih (fun k hk => h k (by simpa [declaredNames] using hk))
+    | oneOf _ _ => simp only [pruneMembers]; exact ih (fun k hk => h k (by simpa [declaredNames] using hk))
+
+theorem filter_keys_nodup (fields : List (String × Bool × Schema)) (ms : List (String × J)) (h : (ms.map (·.1)).Nodup) :
+    ((ms.filter (fun kv => !fields.any (·.1 == kv.1))).map (·.1)).Nodup :=
+  ((List.filter_sublist).map _).nodup h
+
+theorem fieldsConform_filter (fs fields : List (String × Bool × Schema)) (ms : List (String × J))
+    (h : ∀ k ∈ fs.map (·.1), k ∉ fields.map (·.1)) (hnd : (ms.map (·.1)).Nodup) :
+    fieldsConform fs (ms.filter (fun kv => !fields.any (·.1 == kv.1))) = fieldsConform fs ms := by
+  have hnd' := filter_keys_nodup fields ms hnd
+  induction fs with
+  | nil => simp [fieldsConform]
+  | cons f rest ih =>
+    obtain ⟨fname, req, s⟩ := f
+    simp only [fieldsConform]
+    rw [lookupFirst_eq_lookupAssoc _ _ hnd', lookupFirst_eq_lookupAssoc _ _ hnd,
+      lookupAssoc_filter_undeclared fields ms fname (h fname (by simp)), ih (fun k hk => h k (by simp [hk]))]
+
+theorem allMembers_filter (members : List (Bool × Schema)) (fields : List (String × Bool × Schema)) (ms : List (String × J))
+    (h : ∀ k ∈ declaredNames members, k ∉ fields.map (·.1)) (hnd : (ms.map (·.1)).Nodup) :
+    allMembers members (ms.filter (fun kv => !fields.any (·.1 == kv.1))) = allMembers members ms := by
+  induction members with
+  | nil => simp [allMembers]
+  | cons m rest ih =>
+    obtain ⟨b, s⟩ := m
+    cases s with
+    | obj fs a nl =>
+      simp only [declaredNames, List.mem_append] at h
+      simp only [allMembers]
+      rw [fieldsConform_filter fs fields ms (fun k hk => h k (Or.inl hk)) hnd, ih (fun k hk => h k (Or.inr hk))]
+    | prim _ _ => simp [allMembers]
+    | any => simp [allMembers]
+    | arr _ _ => simp [allMembers]
+    | allOf _ => simp [allMembers]
+    | oneOf _ _ => simp [allMembers]
+
+theorem decodeFields_length (tbl : LeafDec) (fields : List (String × Bool × Schema)) :
+    ∀ (ms : List (String × J)) (vs : List Val) (rest : List (String × J)), decodeFields tbl fields ms = .ok (vs, rest) →
+      vs.length = fields.length := by
+  induction fields with
+  | nil =>
+    intro ms vs rest h
+    simp only [decodeFields, Except.ok.injEq, Prod.mk.injEq] at h
+    simp [← h.1]
+  | cons f fs ih =>
+    obtain ⟨name, req, s⟩ := f
+    intro ms vs rest h
+    rw [decodeFields] at h
+    cases hl : lookupAssoc ms name with
+    | none =>
+      simp only [hl] at h
+      by_cases hreq : req = true
+      · simp [hreq] at h
+      · simp only [hreq, Bool.false_eq_true, if_false] at h
+        cases hrec : decodeFields tbl fs ms with
+        | error e => simp [hrec] at h
+        | ok p =>
+          obtain ⟨vs', rest'⟩ := p
+          simp only [hrec, Except.ok.injEq, Prod.mk.injEq] at h
+          rw [← h.1]
+          simp [ih ms vs' rest' hrec]
+    | some j =>
+      simp only [hl] at h
+      cases hj : decode tbl s j with
+      | error e => simp [hj] at h
+      | ok v =>
+        simp only [hj] at h
+        cases hrec : decodeFields tbl fs (eraseKey ms name) with
+        | error e => simp [hrec] at h
+        | ok p =>
+          obtain ⟨vs', rest'⟩ := p
+          simp only [hrec, Except.ok.injEq, Prod.mk.injEq] at h
+          rw [← h.1]
+          simp [ih _ vs' rest' hrec]
+
+theorem laterAddl_false_of_frag (members : List (Bool × Schema)) (h : fragMembers members = true) : laterAddl members = false := by
+  induction members with
+  | nil => rfl
+  | cons m rest ih =>
+    obtain ⟨b, s⟩ := m
+    cases s with
+    | obj fs a nl =>
+      cases a with
+      | none =>
+        simp only [fragMembers, Bool.and_eq_true] at h
+        cases b <;> simp [laterAddl, ih h.2]
+      | some _ => simp [fragMembers] at h
+    | prim _ _ => simp [fragMembers] at h
+    | any => simp [fragMembers] at h
+    | arr _ _ => simp [fragMembers] at h
+    | allOf _ => simp [fragMembers] at h
+    | oneOf _ _ => simp [fragMembers] at h
+
 /-! ### arrays, given the statement for the element schema -/
 
 theorem list_decode_encode (tbl : LeafDec) (s : Schema)
@@ -417,18 +570,24 @@ theorem dec_enc_all (tbl : LeafDec) : ∀ n : Nat,
     (∀ (fields : List (String × Bool × Schema)) (ms : List (String × J)) (vs : List Val) (rest : List (String × J)),
       sizeOf fields ≤ n → fragFields fields = true → (fields.map (·.1)).Nodup → (ms.map (·.1)).Nodup →
       fieldsConform fields ms = true → decodeFields tbl fields ms = .ok (vs, rest) →
-      toJFields fields vs = .ok (pruneFields tbl fields ms, [])) := by
+      toJFields fields vs = .ok (pruneFields tbl fields ms, [])) ∧
+    (∀ (members : List (Bool × Schema)) (ms : List (String × J)) (vs : List Val) (rest : List (String × J)),
+      sizeOf members ≤ n → fragMembers members = true → (declaredNames members).Nodup → (ms.map (·.1)).Nodup →
+      allMembers members ms = true → decodeMembers tbl members ms = .ok (vs, rest) →
+      toJMembers members vs = .ok (pruneMembers tbl members ms)) := by
   intro n
   induction n with
   | zero =>
-    constructor
+    refine ⟨?_, ?_, ?_⟩
     · intro s j v hle
       cases s <;> simp at hle
     · intro fields ms vs rest hle
       cases fields <;> simp at hle
+    · intro members ms vs rest hle
+      cases members <;> simp at hle
   | succ n ih =>
-    obtain ⟨ihS, ihF⟩ := ih
-    constructor
+    obtain ⟨ihS, ihF, ihM⟩ := ih
+    refine ⟨?_, ?_, ?_⟩
     · intro s j v hle hfr hc hd
       cases s with
       | prim k nl =>
@@ -536,7 +695,26 @@ theorem dec_enc_all (tbl : LeafDec) : ∀ n : Nat,
               simp [toJ, this, prune]
           | raw _ => simp [conforms] at hc
           | arr _ => simp [conforms] at hc
-      | allOf _ => simp [frag] at hfr
+      | allOf members =>
+        have hsz : sizeOf members ≤ n := by simp at hle; omega
+        simp only [frag, Bool.and_eq_true, decide_eq_true_eq] at hfr
+        have hla := laterAddl_false_of_frag members hfr.1
+        cases j with
+        | obj ms =>
+          simp only [conforms, Bool.and_eq_true] at hc
+          obtain ⟨⟨hkn, hall⟩, _⟩ := hc
+          simp only [decode, hla, Bool.false_eq_true, if_false] at hd
+          cases hdm : decodeMembers tbl members ms with
+          | error e => simp [hdm] at hd
+          | ok p =>
+            obtain ⟨vs, rest⟩ := p
+            simp only [hdm, Except.ok.injEq] at hd
+            subst hd
+            have := ihM members ms vs rest hsz hfr.1 hfr.2 (nodup_of_keysNodup ms hkn) hall hdm
+            simp [toJ, this, prune, hla]
+        | null => simp [conforms] at hc
+        | raw _ => simp [conforms] at hc
+        | arr _ => simp [conforms] at hc
       | oneOf _ _ => simp [frag] at hfr
     · intro fields ms vs rest hle hfr hnd hkn hfc hd
       cases fields with
@@ -589,6 +767,79 @@ theorem dec_enc_all (tbl : LeafDec) : ∀ n : Nat,
               rw [toJFields_cons_set _ _ _ _ _ _ (decode_ne_unset tbl s j v hj)]
               simp only [ihS s j v hs hfr.1 hhead hj, hrest, pruneFields, hl]
 
+    · intro members ms vs rest hle hfr hnd hkn hall hd
+      cases members with
+      | nil =>
+        simp only [decodeMembers, Except.ok.injEq, Prod.mk.injEq] at hd
+        rw [← hd.1]
+        simp [toJMembers, pruneMembers]
+      | cons m restM =>
+        obtain ⟨b, s⟩ := m
+        have hrestM : sizeOf restM ≤ n := by simp at hle; omega
+        cases s with
+        | obj fields a nl =>
+          have hfs : sizeOf fields ≤ n := by simp at hle; omega
+          cases a with
+          | some _ => simp [fragMembers] at hfr
+          | none =>
+            simp only [fragMembers, Bool.and_eq_true] at hfr
+            simp only [declaredNames] at hnd
+            rw [List.nodup_append] at hnd
+            obtain ⟨hndF, hndR, hdisj⟩ := hnd
+            simp only [allMembers, Bool.and_eq_true] at hall
+            have hdisR : ∀ k ∈ declaredNames restM, k ∉ fields.map (·.1) := fun k hk hm => hdisj k hm k hk rfl
+            cases b with
+            | true =>
+              simp only [decodeMembers] at hd
+              cases hdf : decodeFields tbl fields ms with
+              | error e => simp [hdf] at hd
+              | ok p =>
+                obtain ⟨vs1, rest1⟩ := p
+                simp only [hdf] at hd
+                cases hdm : decodeMembers tbl restM rest1 with
+                | error e => simp [hdm] at hd
+                | ok q =>
+                  obtain ⟨more, left⟩ := q
+                  simp only [hdm, Except.ok.injEq, Prod.mk.injEq] at hd
+                  rw [← hd.1]
+                  have hF := ihF fields ms vs1 rest1 hfs hfr.1 hndF hkn hall.1 hdf
+                  have hrest1 := decodeFields_rest_eq tbl fields ms vs1 rest1 hdf
+                  have hkn1 : (rest1.map (·.1)).Nodup := by rw [hrest1]; exact filter_keys_nodup fields ms hkn
+                  have hall1 : allMembers restM rest1 = true := by
+                    rw [hrest1, allMembers_filter restM fields ms hdisR hkn]; exact hall.2
+                  have hM := ihM restM rest1 more left hrestM hfr.2 hndR hkn1 hall1 hdm
+                  rw [hrest1, pruneMembers_filter tbl restM fields ms hdisR] at hM
+                  have hobj : toJ (.obj fields none nl) (.obj vs1 none) = .ok (.obj (pruneFields tbl fields ms)) := by
+                    simp [toJ, hF]
+                  simp only [toJMembers, hobj, hM, pruneMembers]
+            | false =>
+              simp only [decodeMembers] at hd
+              cases hdf : decodeFields tbl fields ms with
+              | error e => simp [hdf] at hd
+              | ok p =>
+                obtain ⟨vs1, rest1⟩ := p
+                simp only [hdf] at hd
+                cases hdm : decodeMembers tbl restM rest1 with
+                | error e => simp [hdm] at hd
+                | ok q =>
+                  obtain ⟨more, left⟩ := q
+                  simp only [hdm, Except.ok.injEq, Prod.mk.injEq] at hd
+                  rw [← hd.1]
+                  have hF := ihF fields ms vs1 rest1 hfs hfr.1 hndF hkn hall.1 hdf
+                  have hrest1 := decodeFields_rest_eq tbl fields ms vs1 rest1 hdf
+                  have hkn1 : (rest1.map (·.1)).Nodup := by rw [hrest1]; exact filter_keys_nodup fields ms hkn
+                  have hall1 : allMembers restM rest1 = true := by
+                    rw [hrest1, allMembers_filter restM fields ms hdisR hkn]; exact hall.2
+                  have hM := ihM restM rest1 more left hrestM hfr.2 hndR hkn1 hall1 hdm
+                  rw [hrest1, pruneMembers_filter tbl restM fields ms hdisR] at hM
+                  have hlen := decodeFields_length tbl fields ms vs1 rest1 hdf
+                  simp only [toJMembers, toJFields_append fields vs1 more hlen, hF, hM, pruneMembers]
+        | prim _ _ => simp [fragMembers] at hfr
+        | any => simp [fragMembers] at hfr
+        | arr _ _ => simp [fragMembers] at hfr
+        | allOf _ => simp [fragMembers] at hfr
+        | oneOf _ _ => simp [fragMembers] at hfr
+
 /-- **C08, valid documents re-encode to an equivalent JSON value** (leaf / array / object fragment,
     any depth): what the decoder accepts of a conforming document encodes to the reference `prune`. -/
 theorem decode_encode_is_prune (tbl : LeafDec) (s : Schema) (j : J) (v : Val)
@@ -610,6 +861,7 @@ def leavesOk (tbl : LeafDec) : Schema → J → Bool
   | .obj fields none _, .obj ms => leavesOkFields tbl fields ms
   | .obj fields (some a) _, .obj ms =>
     leavesOkFields tbl fields ms && leavesOkList tbl a ((ms.filter (fun kv => !fields.any (·.1 == kv.1))).map (·.2))
+  | .allOf members, .obj ms => leavesOkMembers tbl members ms
   | _, _ => true
 def leavesOkList (tbl : LeafDec) : Schema → List J → Bool
   | _, [] => true
@@ -620,7 +872,39 @@ def leavesOkFields (tbl : LeafDec) : List (String × Bool × Schema) → List (S
     (match lookupAssoc ms name with
      | some j => leavesOk tbl s j
      | none => true) && leavesOkFields tbl fs ms
+def leavesOkMembers (tbl : LeafDec) : List (Bool × Schema) → List (String × J) → Bool
+  | [], _ => true
+  | (_, .obj fields _ _) :: rest, ms => leavesOkFields tbl fields ms && leavesOkMembers tbl rest ms
+  | _ :: rest, ms => leavesOkMembers tbl rest ms
 end
+
+theorem leavesOkFields_filter (tbl : LeafDec) (fs fields : List (String × Bool × Schema)) (ms : List (String × J))
+    (h : ∀ k ∈ fs.map (·.1), k ∉ fields.map (·.1)) :
+    leavesOkFields tbl fs (ms.filter (fun kv => !fields.any (·.1 == kv.1))) = leavesOkFields tbl fs ms := by
+  induction fs with
+  | nil => simp [leavesOkFields]
+  | cons f rest ih =>
+    obtain ⟨fname, req, s⟩ := f
+    simp only [leavesOkFields]
+    rw [lookupAssoc_filter_undeclared fields ms fname (h fname (by simp)), ih (fun k hk => h k (by simp [hk]))]
+
+theorem leavesOkMembers_filter (tbl : LeafDec) (members : List (Bool × Schema)) (fields : List (String × Bool × Schema))
+    (ms : List (String × J)) (h : ∀ k ∈ declaredNames members, k ∉ fields.map (·.1)) :
+    leavesOkMembers tbl members (ms.filter (fun kv => !fields.any (·.1 == kv.1))) = leavesOkMembers tbl members ms := by
+  induction members with
+  | nil => simp [leavesOkMembers]
+  | cons m rest ih =>
+    obtain ⟨b, s⟩ := m
+    cases s with
+    | obj fs a nl =>
+      simp only [declaredNames, List.mem_append] at h
+      simp only [leavesOkMembers]
+      rw [leavesOkFields_filter tbl fs fields ms (fun k hk => h k (Or.inl hk)), ih (fun k hk => h k (Or.inr hk))]
+    | prim _ _ => simp only [leavesOkMembers]; exact ih (fun k hk => h k (by simpa [declaredNames] using hk))
+    | any => simp only [leavesOkMembers]; exact ih (fun k hk => h k (by simpa [declaredNames] using hk))
+    | arr _ _ => simp only [leavesOkMembers]; exact ih (fun k hk => h k (by simpa [declaredNames] using hk))
+    | allOf _ => simp only [leavesOkMembers]; exact ih (fun k hk => h k (by simpa [declaredNames] using hk))
+    | oneOf _ _ => simp only [leavesOkMembers]; exact ih (fun k hk => h k (by simpa [declaredNames] using hk))
 
 theorem leavesOkFields_eraseKey (tbl : LeafDec) (fs : List (String × Bool × Schema)) (ms : List (String × J)) (name : String)
     (h : name ∉ fs.map (·.1)) : leavesOkFields tbl fs (eraseKey ms name) = leavesOkFields tbl fs ms := by
@@ -668,18 +952,24 @@ theorem decodes_all (tbl : LeafDec) : ∀ n : Nat,
     (∀ (fields : List (String × Bool × Schema)) (ms : List (String × J)),
       sizeOf fields ≤ n → fragFields fields = true → (fields.map (·.1)).Nodup → (ms.map (·.1)).Nodup →
       fieldsConform fields ms = true → leavesOkFields tbl fields ms = true →
-      ∃ vs rest, decodeFields tbl fields ms = .ok (vs, rest)) := by
+      ∃ vs rest, decodeFields tbl fields ms = .ok (vs, rest)) ∧
+    (∀ (members : List (Bool × Schema)) (ms : List (String × J)),
+      sizeOf members ≤ n → fragMembers members = true → (declaredNames members).Nodup → (ms.map (·.1)).Nodup →
+      allMembers members ms = true → leavesOkMembers tbl members ms = true →
+      ∃ vs rest, decodeMembers tbl members ms = .ok (vs, rest)) := by
   intro n
   induction n with
   | zero =>
-    constructor
+    refine ⟨?_, ?_, ?_⟩
     · intro s j hle
       cases s <;> simp at hle
     · intro fields ms hle
       cases fields <;> simp at hle
+    · intro members ms hle
+      cases members <;> simp at hle
   | succ n ih =>
-    obtain ⟨ihS, ihF⟩ := ih
-    constructor
+    obtain ⟨ihS, ihF, ihM⟩ := ih
+    refine ⟨?_, ?_, ?_⟩
     · intro s j hle hfr hc hl
       cases s with
       | prim k nl =>
@@ -751,7 +1041,20 @@ theorem decodes_all (tbl : LeafDec) : ∀ n : Nat,
             exact ⟨.obj vs none, by simp [decode, hd]⟩
           | raw _ => simp [conforms] at hc
           | arr _ => simp [conforms] at hc
-      | allOf _ => simp [frag] at hfr
+      | allOf members =>
+        have hsz : sizeOf members ≤ n := by simp at hle; omega
+        simp only [frag, Bool.and_eq_true, decide_eq_true_eq] at hfr
+        have hla := laterAddl_false_of_frag members hfr.1
+        cases j with
+        | obj ms =>
+          simp only [conforms, Bool.and_eq_true] at hc
+          obtain ⟨⟨hkn, hall⟩, _⟩ := hc
+          simp only [leavesOk] at hl
+          obtain ⟨vs, rest, hd⟩ := ihM members ms hsz hfr.1 hfr.2 (nodup_of_keysNodup ms hkn) hall hl
+          exact ⟨.obj vs none, by simp [decode, hd, hla]⟩
+        | null => simp [conforms] at hc
+        | raw _ => simp [conforms] at hc
+        | arr _ => simp [conforms] at hc
       | oneOf _ _ => simp [frag] at hfr
     · intro fields ms hle hfr hnd hkn hfc hl
       cases fields with
@@ -784,6 +1087,42 @@ theorem decodes_all (tbl : LeafDec) : ∀ n : Nat,
           obtain ⟨vs', rest', hrec⟩ := ihF fs (eraseKey ms name) hfs hfr.2 hnd' hkn' htail' hlt'
           exact ⟨v :: vs', rest', by simp [decodeFields, hla, hv, hrec]⟩
 
+    · intro members ms hle hfr hnd hkn hall hl
+      cases members with
+      | nil => exact ⟨[], ms, by simp [decodeMembers]⟩
+      | cons m restM =>
+        obtain ⟨b, s⟩ := m
+        have hrestM : sizeOf restM ≤ n := by simp at hle; omega
+        cases s with
+        | obj fields a nl =>
+          have hfs : sizeOf fields ≤ n := by simp at hle; omega
+          cases a with
+          | some _ => simp [fragMembers] at hfr
+          | none =>
+            simp only [fragMembers, Bool.and_eq_true] at hfr
+            simp only [declaredNames] at hnd
+            rw [List.nodup_append] at hnd
+            obtain ⟨hndF, hndR, hdisj⟩ := hnd
+            simp only [allMembers, Bool.and_eq_true] at hall
+            simp only [leavesOkMembers, Bool.and_eq_true] at hl
+            have hdisR : ∀ k ∈ declaredNames restM, k ∉ fields.map (·.1) := fun k hk hm => hdisj k hm k hk rfl
+            obtain ⟨vs1, rest1, hdf⟩ := ihF fields ms hfs hfr.1 hndF hkn hall.1 hl.1
+            have hrest1 := decodeFields_rest_eq tbl fields ms vs1 rest1 hdf
+            have hkn1 : (rest1.map (·.1)).Nodup := by rw [hrest1]; exact filter_keys_nodup fields ms hkn
+            have hall1 : allMembers restM rest1 = true := by
+              rw [hrest1, allMembers_filter restM fields ms hdisR hkn]; exact hall.2
+            have hl1 : leavesOkMembers tbl restM rest1 = true := by
+              rw [hrest1, leavesOkMembers_filter tbl restM fields ms hdisR]; exact hl.2
+            obtain ⟨more, left, hdm⟩ := ihM restM rest1 hrestM hfr.2 hndR hkn1 hall1 hl1
+            cases b with
+            | true => exact ⟨Val.obj vs1 none :: more, left, by simp [decodeMembers, hdf, hdm]⟩
+            | false => exact ⟨vs1 ++ more, left, by simp [decodeMembers, hdf, hdm]⟩
+        | prim _ _ => simp [fragMembers] at hfr
+        | any => simp [fragMembers] at hfr
+        | arr _ _ => simp [fragMembers] at hfr
+        | allOf _ => simp [fragMembers] at hfr
+        | oneOf _ _ => simp [fragMembers] at hfr
+
 /-- **C08, valid documents decode without error** (leaf / array / object fragment, any depth) -/
 theorem conforming_decodes (tbl : LeafDec) (s : Schema) (j : J)
     (hfr : frag s = true) (hc : conforms s j = true) (hl : leavesOk tbl s j = true) : ∃ v, decode tbl s j = .ok v :=
@@ -811,6 +1150,20 @@ example : leavesOk exTbl exSchemaD exDoc = true := by
   all_goals decide
 
 
+
+/-- … and a composition whose members' keys arrive in another order -/
+def exSchemaDA : Schema :=
+  .allOf [(true, .obj [("id", true, .prim .int false)] none false), (false, .obj [("name", false, .prim .str false)] none false)]
+def exDocA : J := .obj [("name", .raw "\"a\""), ("id", .raw "7")]
+example : frag exSchemaDA = true := by simp [frag, fragMembers, fragFields, declaredNames, exSchemaDA]
+example : conforms exSchemaDA exDocA = true := by
+  simp [conforms, allMembers, fieldsConform, lookupFirst, keysNodup, List.eraseDups_cons, leafKindOk, isIntLit, laterAddl,
+    declaredNames, exSchemaDA, exDocA, List.find?]
+  all_goals decide
+example : leavesOk exTbl exSchemaDA exDocA = true := by
+  simp [leavesOk, leavesOkMembers, leavesOkFields, lookupAssoc, exTbl, exSchemaDA, exDocA, List.find?, Kind.tag]
+  all_goals decide
+
 /-! ### the other direction: what the decoder accepts has the declared shape, at every depth -/
 
 mutual
@@ -829,6 +1182,8 @@ def shapeOk : Schema → J → Bool
   | .obj fields (some a) _, .obj ms =>
     shapeOkFields fields ms && shapeOkList a ((ms.filter (fun kv => !fields.any (·.1 == kv.1))).map (·.2))
   | .obj _ _ _, _ => false
+  | .allOf members, .obj ms => shapeOkMembers members ms
+  | .allOf _, _ => false
   | _, _ => true
 def shapeOkList : Schema → List J → Bool
   | _, [] => true
@@ -839,7 +1194,39 @@ def shapeOkFields : List (String × Bool × Schema) → List (String × J) → B
     (match lookupAssoc ms name with
      | some j => shapeOk s j
      | none => !req) && shapeOkFields fs ms
+def shapeOkMembers : List (Bool × Schema) → List (String × J) → Bool
+  | [], _ => true
+  | (_, .obj fields _ _) :: rest, ms => shapeOkFields fields ms && shapeOkMembers rest ms
+  | _ :: rest, ms => shapeOkMembers rest ms
 end
+
+theorem shapeOkFields_filter (fs fields : List (String × Bool × Schema)) (ms : List (String × J))
+    (h : ∀ k ∈ fs.map (·.1), k ∉ fields.map (·.1)) :
+    shapeOkFields fs (ms.filter (fun kv => !fields.any (·.1 == kv.1))) = shapeOkFields fs ms := by
+  induction fs with
+  | nil => simp [shapeOkFields]
+  | cons f rest ih =>
+    obtain ⟨fname, req, s⟩ := f
+    simp only [shapeOkFields]
+    rw [lookupAssoc_filter_undeclared fields ms fname (h fname (by simp)), ih (fun k hk => h k (by simp [hk]))]
+
+theorem shapeOkMembers_filter (members : List (Bool × Schema)) (fields : List (String × Bool × Schema))
+    (ms : List (String × J)) (h : ∀ k ∈ declaredNames members, k ∉ fields.map (·.1)) :
+    shapeOkMembers members (ms.filter (fun kv => !fields.any (·.1 == kv.1))) = shapeOkMembers members ms := by
+  induction members with
+  | nil => simp [shapeOkMembers]
+  | cons m rest ih =>
+    obtain ⟨b, s⟩ := m
+    cases s with
+    | obj fs a nl =>
+      simp only [declaredNames, List.mem_append] at h
+      simp only [shapeOkMembers]
+      rw [shapeOkFields_filter fs fields ms (fun k hk => h k (Or.inl hk)), ih (fun k hk => h k (Or.inr hk))]
+    | prim _ _ => simp only [shapeOkMembers]; exact ih (fun k hk => h k (by simpa [declaredNames] using hk))
+    | any => simp only [shapeOkMembers]; exact ih (fun k hk => h k (by simpa [declaredNames] using hk))
+    | arr _ _ => simp only [shapeOkMembers]; exact ih (fun k hk => h k (by simpa [declaredNames] using hk))
+    | allOf _ => simp only [shapeOkMembers]; exact ih (fun k hk => h k (by simpa [declaredNames] using hk))
+    | oneOf _ _ => simp only [shapeOkMembers]; exact ih (fun k hk => h k (by simpa [declaredNames] using hk))
 
 theorem shapeOkFields_eraseKey (fs : List (String × Bool × Schema)) (ms : List (String × J)) (name : String)
     (h : name ∉ fs.map (·.1)) : shapeOkFields fs (eraseKey ms name) = shapeOkFields fs ms := by
@@ -889,18 +1276,23 @@ theorem shape_all (tbl : LeafDec) : ∀ n : Nat,
     (∀ (s : Schema) (j : J) (v : Val), sizeOf s ≤ n → frag s = true → decode tbl s j = .ok v → shapeOk s j = true) ∧
     (∀ (fields : List (String × Bool × Schema)) (ms : List (String × J)) (vs : List Val) (rest : List (String × J)),
       sizeOf fields ≤ n → fragFields fields = true → (fields.map (·.1)).Nodup →
-      decodeFields tbl fields ms = .ok (vs, rest) → shapeOkFields fields ms = true) := by
+      decodeFields tbl fields ms = .ok (vs, rest) → shapeOkFields fields ms = true) ∧
+    (∀ (members : List (Bool × Schema)) (ms : List (String × J)) (vs : List Val) (rest : List (String × J)),
+      sizeOf members ≤ n → fragMembers members = true → (declaredNames members).Nodup →
+      decodeMembers tbl members ms = .ok (vs, rest) → shapeOkMembers members ms = true) := by
   intro n
   induction n with
   | zero =>
-    constructor
+    refine ⟨?_, ?_, ?_⟩
     · intro s j v hle
       cases s <;> simp at hle
     · intro fields ms vs rest hle
       cases fields <;> simp at hle
+    · intro members ms vs rest hle
+      cases members <;> simp at hle
   | succ n ih =>
-    obtain ⟨ihS, ihF⟩ := ih
-    constructor
+    obtain ⟨ihS, ihF, ihM⟩ := ih
+    refine ⟨?_, ?_, ?_⟩
     · intro s j v hle hfr hd
       cases s with
       | prim k nl =>
@@ -969,7 +1361,21 @@ theorem shape_all (tbl : LeafDec) : ∀ n : Nat,
               exact ihF fields ms vs rest hsz hfr.1 hfr.2 hdf
           | raw _ => simp [decode] at hd
           | arr _ => simp [decode] at hd
-      | allOf _ => simp [frag] at hfr
+      | allOf members =>
+        have hsz : sizeOf members ≤ n := by simp at hle; omega
+        simp only [frag, Bool.and_eq_true, decide_eq_true_eq] at hfr
+        cases j with
+        | obj ms =>
+          simp only [decode] at hd
+          cases hdm : decodeMembers tbl members ms with
+          | error e => simp [hdm] at hd
+          | ok p =>
+            obtain ⟨vs, rest⟩ := p
+            simp only [shapeOk]
+            exact ihM members ms vs rest hsz hfr.1 hfr.2 hdm
+        | null => simp [decode] at hd
+        | raw _ => simp [decode] at hd
+        | arr _ => simp [decode] at hd
       | oneOf _ _ => simp [frag] at hfr
     · intro fields ms vs rest hle hfr hnd hd
       cases fields with
@@ -1009,6 +1415,59 @@ theorem shape_all (tbl : LeafDec) : ∀ n : Nat,
               have h2 := ihF fs (eraseKey ms name) vs' rest' hfs hfr.2 hnd' hrec
               rw [shapeOkFields_eraseKey fs ms name hname] at h2
               simp [h1, h2]
+
+    · intro members ms vs rest hle hfr hnd hd
+      cases members with
+      | nil => simp [shapeOkMembers]
+      | cons m restM =>
+        obtain ⟨b, s⟩ := m
+        have hrestM : sizeOf restM ≤ n := by simp at hle; omega
+        cases s with
+        | obj fields a nl =>
+          have hfs : sizeOf fields ≤ n := by simp at hle; omega
+          cases a with
+          | some _ => simp [fragMembers] at hfr
+          | none =>
+            simp only [fragMembers, Bool.and_eq_true] at hfr
+            simp only [declaredNames] at hnd
+            rw [List.nodup_append] at hnd
+            obtain ⟨hndF, hndR, hdisj⟩ := hnd
+            have hdisR : ∀ k ∈ declaredNames restM, k ∉ fields.map (·.1) := fun k hk hm => hdisj k hm k hk rfl
+            have hcore : ∀ vs1 rest1 more left, decodeFields tbl fields ms = .ok (vs1, rest1) →
+                decodeMembers tbl restM rest1 = .ok (more, left) →
+                shapeOkMembers ((b, .obj fields none nl) :: restM) ms = true := by
+              intro vs1 rest1 more left hdf hdm
+              have h1 := ihF fields ms vs1 rest1 hfs hfr.1 hndF hdf
+              have hrest1 := decodeFields_rest_eq tbl fields ms vs1 rest1 hdf
+              have h2 := ihM restM rest1 more left hrestM hfr.2 hndR hdm
+              rw [hrest1, shapeOkMembers_filter restM fields ms hdisR] at h2
+              simp [shapeOkMembers, h1, h2]
+            cases b with
+            | true =>
+              simp only [decodeMembers] at hd
+              cases hdf : decodeFields tbl fields ms with
+              | error e => simp [hdf] at hd
+              | ok p =>
+                obtain ⟨vs1, rest1⟩ := p
+                simp only [hdf] at hd
+                cases hdm : decodeMembers tbl restM rest1 with
+                | error e => simp [hdm] at hd
+                | ok q => exact hcore vs1 rest1 q.1 q.2 hdf hdm
+            | false =>
+              simp only [decodeMembers] at hd
+              cases hdf : decodeFields tbl fields ms with
+              | error e => simp [hdf] at hd
+              | ok p =>
+                obtain ⟨vs1, rest1⟩ := p
+                simp only [hdf] at hd
+                cases hdm : decodeMembers tbl restM rest1 with
+                | error e => simp [hdm] at hd
+                | ok q => exact hcore vs1 rest1 q.1 q.2 hdf hdm
+        | prim _ _ => simp [fragMembers] at hfr
+        | any => simp [fragMembers] at hfr
+        | arr _ _ => simp [fragMembers] at hfr
+        | allOf _ => simp [fragMembers] at hfr
+        | oneOf _ _ => simp [fragMembers] at hfr
 
 /-- **C08, faults are rejected at every depth** (leaf / array / object fragment): a document in which,
     anywhere below a declared property, a required property is missing, a non-null non-object sits
